@@ -1002,7 +1002,10 @@ impl Env for RealSeeded {
 pub fn install_from_process_env() {
     if let Ok(s) = std::env::var("SOLSTAT_VERIF_SEED") {
         if let Ok(seed) = s.trim().parse::<u64>() {
-            install(Arc::new(RealSeeded { seed }));
+            let env: Arc<dyn Env> = Arc::new(RealSeeded { seed });
+            install(env.clone());
+            // threads the program may start see the same seeded environment
+            install_global(Some(env));
         }
     }
 }
